@@ -852,6 +852,60 @@ def run_check(tier, seed):
                                       text, 'is false' if bad[1] is False else 'involves a value HOL leaves unspecified', bad[0]),
                                   dict(goal=text, point=bad[0]), key='C06:sympy-accepts:' + ('symbolic' if names else 'closed'))
             run.count(('sympy', text), nontrivial=acc)
+        # closed goals at nat / int / real with subtraction (truncated at nat) judged by exact arithmetic following the TYPES
+        from fractions import Fraction as _Fr
+        from kernel.type import NatType as _NatT
+
+        def _exact(t_):
+            if t_.is_number():
+                return _Fr(t_.dest_number())
+            if t_.is_plus():
+                return _exact(t_.arg1) + _exact(t_.arg)
+            if t_.is_times():
+                return _exact(t_.arg1) * _exact(t_.arg)
+            if t_.is_minus():
+                v_ = _exact(t_.arg1) - _exact(t_.arg)
+                return max(v_, _Fr(0)) if t_.get_type() == _NatT else v_
+            if t_.is_uminus():
+                return -_exact(t_.arg)
+            raise ValueError('outside the exact fragment')
+
+        def _holds(t_):
+            if t_.is_not():
+                return not _holds(t_.arg)
+            a_, b_ = _exact(t_.arg1), _exact(t_.arg)
+            if t_.is_equals():
+                return a_ == b_
+            if t_.is_less():
+                return a_ < b_
+            if t_.is_less_eq():
+                return a_ <= b_
+            if t_.is_greater():
+                return a_ > b_
+            if t_.is_greater_eq():
+                return a_ >= b_
+            raise ValueError('outside the exact fragment')
+        typed_closed = []
+        for T_ in ('nat', 'int', 'real'):
+            for a_, b_ in ((3, 5), (5, 3), (2, 2), (0, 4), (7, 1)):
+                typed_closed += ['(%d::%s) - %d < 0' % (a_, T_, b_), '~((%d::%s) - %d = 0)' % (a_, T_, b_), '(%d::%s) - %d = 0' % (a_, T_, b_),
+                                 '(%d::%s) - %d + %d = %d' % (a_, T_, b_, b_, a_), '~((%d::%s) - %d + %d = %d)' % (a_, T_, b_, b_, a_),
+                                 '(%d::%s) - %d >= 0' % (a_, T_, b_), '(%d::%s) - %d * 2 + 1 > 0' % (a_, T_, b_), '(%d::%s) * 2 - %d <= %d' % (a_, T_, b_, a_)]
+        for text in typed_closed:
+            try:
+                goal = parser.parse_term(text)
+                truth = _holds(goal)
+                acc = sympywrapper.solve_goal(goal)
+            except RecursionError:
+                raise
+            except Exception as e:
+                run.stat('sympy_typed_exc:' + type(e).__name__)
+                continue
+            run.stat('sympy:typed-closed:%s:%s' % ('accepted' if acc else 'rejected', 'true' if truth else 'false'))
+            if acc and not truth:
+                run.violation('property', 'SymPy step accepts %s, which is false under the HOL meaning (subtraction at nat is truncated)' % text,
+                              dict(goal=text, reproduce='sympywrapper.solve_goal(parser.parse_term(goal))'), key='C06:sympy-accepts:typed-closed')
+            run.count(('sympy-typed', text), nontrivial=acc)
         for gtext, ctext in SYMPY_INTERVAL:
             try:
                 goal, cond = parser.parse_term(gtext), parser.parse_term(ctext)
